@@ -43,3 +43,33 @@ Print Assumptions C05_contract.
 Theorem C05_example : rsq_example_checks 256 /\ rsq_example_checks 512.
 Proof. exact (conj rsq_example_256 rsq_example_512). Qed.
 Print Assumptions C05_example.
+
+From QwtModel Require Import Words LeavesSB LeavesSBOk LeavesLine LeavesLineOk.
+
+(* ---- T3: the packed superblock counters REGENERATED from
+   src/qvector/rs_qvector/rs_support_plain.rs (SuperblockPlain::get_rank / get_superblock_counter)
+   equal the hand model for every block index a caller can pass (callers pass block & 7; for
+   block_id >= 12 the source would shift a u128 by >= 128 bits, the hand model is laxer there). *)
+Theorem C05_source_sb_get_rank : forall ws symbol block_id,
+  Forall (fun w => w < 2 ^ 128) ws -> symbol < 256 -> block_id <= 11 ->
+  g_sb_get_rank ws symbol block_id = sb_get_rank ws symbol block_id.
+Proof. exact g_sb_get_rank_ok. Qed.
+Print Assumptions C05_source_sb_get_rank.
+Theorem C05_source_sb_get_superblock_counter : forall ws symbol,
+  Forall (fun w => w < 2 ^ 128) ws -> symbol < 256 ->
+  g_sb_get_superblock_counter ws symbol = sb_get_superblock_counter ws symbol.
+Proof. exact g_sb_get_superblock_counter_ok. Qed.
+Print Assumptions C05_source_sb_get_superblock_counter.
+
+(* ---- T3: the word-level DataLine functions REGENERATED from src/qvector/mod.rs on every run
+   (tools/gen_leaves.py -> Gen/LeavesLine.v: typed, operation-by-operation translation of the Rust
+   text) are equal to the hand-written word view on all in-range arguments; together with
+   C13_line_get / C13_line_rank / C13_line_set the theorems hold of what the source says now. *)
+Theorem C05_source_line_get_unchecked : forall ws i, i < 2 ^ 64 ->
+  g_qline_get_unchecked ws i = qline_get_unchecked ws i.
+Proof. exact g_qline_get_unchecked_ok. Qed.
+Print Assumptions C05_source_line_get_unchecked.
+Theorem C05_source_line_rank_unchecked : forall ws symbol i, symbol < 256 -> i < 2 ^ 64 ->
+  g_qline_rank_unchecked ws symbol i = qline_rank_unchecked ws symbol i.
+Proof. exact g_qline_rank_unchecked_ok. Qed.
+Print Assumptions C05_source_line_rank_unchecked.
